@@ -266,6 +266,30 @@ def bounded(arg):
         evaluations += 1
         if got != 'failing':
             record('error operand does not count as failing', name, '%s(<exception>, 5)' % name, 'failing', got, repr(exc) if exc else '')
+    # output containment: exact, or "only lowercased" as documented - and the negated check is its complement
+    from pedal.core.commands import contextualize_report as _ctx
+    from pedal.sandbox.commands import run as _run, get_sandbox as _get_sandbox, clear_sandbox as _clear_sb
+    from pedal.assertions import runtime as _rto
+    for printed in ("Goethestra\u00dfe 12", "Hello World", "\u03a3\u038a\u03a3\u03a5\u03a6\u039f\u03a3", "abc"):
+        for needle in ("GOETHESTRASSE", "goethestra\u00dfe", "hello", "WORLD", "\u03c3\u03af\u03c3\u03c5\u03c6\u03bf\u03c3", "xyz", "12"):
+            for exact in (False, True):
+                holds_ = (needle in printed + "\n") if exact else (needle.lower() in (printed + "\n").lower())
+                outcomes = []
+                for fn_name in ('assert_output_contains', 'assert_not_output_contains'):
+                    from pedal.core.commands import clear_report as _cr
+                    _cr()
+                    _ctx("print(%r)" % printed)
+                    _clear_sb()
+                    student = _run()
+                    evaluations += 1
+                    try:
+                        outcomes.append('failing' if getattr(_rto, fn_name)(student, needle, exact_strings=exact) else 'silent')
+                    except Exception as e:
+                        outcomes.append('raised %r' % e)
+                want = ['silent', 'failing'] if holds_ else ['failing', 'silent']
+                if outcomes != want:
+                    record('output containment disagrees with `in` on the %s text' % ('exact' if exact else 'lowercased'),
+                           'assert_output_contains', 'printed %r, needle %r, exact_strings=%r' % (printed, needle, exact), want, outcomes)
     # the documented meaning of delta=None is the default tolerance
     from pedal.assertions import runtime as _rt
     from pedal.core.commands import clear_report as _clear
